@@ -11,7 +11,7 @@ SPECS = [
          attrs={"self.cob_id": "cob_id_", "self.period": "period_", "self.timestamp": "timestamp_"},
          calls={"self._task is not None": "task_running", "self.timestamp is not None": "has_ts"},
          bools=["is_transmitting"],
-         stmts={"self.is_received = True": "let accepted_ := true", "self.data = data": "let data_ := 0"},
+         stmts={"self.is_received = True": "let accepted_ := true", "self.data = bytearray(data)": "let data_ := 0"},
          skip_stmts=["self.receive_condition.notify_all()", "for callback in self.callbacks:\n    callback(self)"]),
     # PdoMap.remote_request: is a remote frame sent?
     dict(module="canopen.pdo.base", qualname="PdoMap.remote_request", name="src_pdo_remote_request_sends",
